@@ -241,6 +241,31 @@ pub fn plan(tier: Tier) -> Plan {
             ));
         }
     }
+    // every assignment from {0,1,2} to every subset of U_abc2 with <= 3 keys
+    // (thorough 4): final outputs and non-monotone values under every bound
+    {
+        let u = u_abc2();
+        let mut masks = vec![];
+        for_each_mask_upto(u.keys.len(), if thorough { 4 } else { 3 }, &mut |m| masks.push(m));
+        let chunk = (masks.len() + 63) / 64;
+        for part in masks.chunks(chunk.max(1)) {
+            let part = part.to_vec();
+            let u = u.clone();
+            p.units.push(unit("U_abc2-all-value-assignments-{0,1,2}-all-bounds", format!("abc2 assignments {} masks from {}", part.len(), part[0]), move |st, rep| {
+                for &mask in &part {
+                    if rep.stopped() { return; }
+                    let keys = select(&u.keys, mask);
+                    let n = keys.len();
+                    for code in 0..3usize.pow(n as u32) {
+                        let mut c = code;
+                        let kvs: Vec<Kv> = keys.iter().map(|k| { let v = (c % 3) as u64; c /= 3; (k.clone(), v) }).collect();
+                        st.nontrivial += (n >= 2) as u64;
+                        do_case(&kvs, (1, 1), Scope { full_bounds: n <= 2, wrappers: false, repeats: false }, st, rep);
+                    }
+                }
+            }));
+        }
+    }
     let fanouts: Vec<usize> = if thorough { (0..=256).step_by(3).collect() } else { vec![2, 32, 33, 64, 256] };
     for n in fanouts {
         p.units.push(unit("fanout-families", format!("fanout {}", n), move |st, rep| {
